@@ -60,6 +60,31 @@ pub fn gen_case(rng: &mut Rng, lossless_only: bool) -> (Cfg, Vec<F>) {
         for (k, n) in found.into_iter().enumerate() { let at = if k == 0 { rng.below(files.len() as u64 + 1) as usize } else { files.len() }; let len = rng.range(1, 900) as usize; let class = rng.below(5);
             files.insert(at, F { name: n, data: content(rng, len, class), method: *rng.pick(methods), enc: 0 }); }
     }
+    // one case in three carries a sectored file that is ALMOST incompressible: random sectors, one of them ending in a short
+    // run of zeros (4..128 bytes) - a sector shrinks, the file as a whole hardly does: whatever layout the writer falls back
+    // to has to be the one its flags announce
+    if rng.chance(1, 3) {
+        let m = *rng.pick(&[flags::ZLIB, flags::SPARSE, flags::BZIP2, flags::LZMA]);
+        let nsec = rng.range(2, 6) as usize;
+        let cut = if rng.chance(1, 2) { 0 } else { rng.range(1, ssz as u64 - 1) as usize };
+        let mut d = rng.bytes(nsec * ssz - cut);
+        for b in d.iter_mut() { if *b == 0 { *b = 1; } }
+        let j = rng.below(nsec as u64) as usize; let z = *rng.pick(&[4usize, 8, 12, 16, 20, 24, 28, 40, 64, 72, 80, 96, 128]);
+        let end = ((j + 1) * ssz).min(d.len()); for b in &mut d[end.saturating_sub(z.min(ssz - 1))..end] { *b = 0; }
+        files.push(F { name: "edge\\barely.bin".into(), data: d, method: m, enc: rng.below(3) as u8 });
+    }
+    // one case in three carries the sparse codec's literal-run boundaries: stretches without zero runs of exactly 127..130,
+    // 255..258, 385 bytes between runs of zeros, as a single unit and across sectors
+    if rng.chance(1, 3) {
+        let mut d = vec![];
+        for _ in 0..rng.range(1, 5) {
+            d.extend(std::iter::repeat(0u8).take(rng.range(3, 40) as usize));
+            let l = *rng.pick(&[127usize, 128, 129, 129, 130, 255, 256, 257, 257, 258, 385, 1, 2]);
+            d.extend((0..l).map(|_| (rng.next() as u8) | 1));
+        }
+        if rng.chance(1, 2) { d.extend(std::iter::repeat(0u8).take(rng.range(3, 200) as usize)); }
+        files.push(F { name: "edge\\runs.bin".into(), data: d, method: flags::SPARSE, enc: rng.below(3) as u8 });
+    }
     // one case in four carries store-raw boundary units: as single-unit files and as the middle sector of a sectored file
     if rng.chance(1, 4) {
         let m = *rng.pick(&[flags::ZLIB, flags::BZIP2, flags::LZMA, flags::SPARSE]);
